@@ -268,7 +268,11 @@ func C11(rep *ev.Reporter, tier string) {
 	rep.Coverage["traces_validated_against_impl"] = calls
 	rep.Coverage["distinct_nontrivial"] = nontrivial
 	rep.Coverage["distinct_outcomes"] = len(outcomes)
-	rep.Coverage["order_controlled"] = hx.OrderControlled
+	rep.Coverage["order_controlled"] = hx.OrderLive()
+	if !hx.OrderLive() {
+		rep.Exhaustive = false
+		rep.Coverage["order_note"] = "the rule-order hook is not live on this tree: rule orders were NOT enumerated (each run took whatever order the Go runtime chose)"
+	}
 	if bud.Hit() {
 		rep.Exhaustive = false
 		rep.Coverage["caps_hit"] = "time budget"
